@@ -14,7 +14,7 @@
    GetRegistry, IsMixedAccessSVLAN and LookupSubscriberGroup (atomic.Value, lock-free).
    GetRunning/GetStartup return a pointer that the caller reads after RUnlock: this is safe exactly
    because a published configuration object is never written again, which is the no-alias part of
-   Proofs.Inv (and false for today's Defective variant after a failed startup write).
+   Proofs.Inv (and false for the Defective variant, i.e. the tree before 1761ed1, after a failed startup write).
 
    What the theorem assumes about Go: sync.RWMutex provides reader/writer mutual exclusion
    ([can_acquire]) and the deferred unlock runs.  The claim is tied to the code by the concurrent
